@@ -25,7 +25,7 @@ CONVERT = [
         'takeMsgRevoked', 'msgRevokedSerials', 'decodeTbsMsgCrl', 'msgCrlBody', 'msgSignerInfo', 'msgEncap', 'msgCertPart', 'msgCrlPart',
         'msgSignerPart', 'msgHead', 'msgSignedData', 'decodeSigMsg']),
 ]
-NAMESPACES = ['Der', 'CertDer', 'Manifest', 'SigObj', 'CmsDer', 'CrlDer', 'SigMsgDer', 'Crl']
+NAMESPACES = ['Der', 'CertDer', 'Manifest', 'SigObj', 'CmsDer', 'CrlDer', 'SigMsgDer', 'Crl', 'AsDer']
 names = [n for _, n in HAND] + [n for _, _, ns in CONVERT for n in ns]
 assert len(names) == len(set(names)), 'a name is listed twice'
 alt = '|'.join(sorted(names, key=len, reverse=True))
@@ -235,3 +235,75 @@ for path, ns, wanted in CONVERT:
 open(os.path.join(ROOT, 'Rpki/Gen/BerEq.lean'), 'w').write('\n'.join(eq))
 print('BerEq.lean: %d theorems' % (len(lemmas) - len(LEAF)))
 print('BerModel.lean: %d definitions' % count)
+
+# ---- lemmas of the DER model whose proofs only unfold the definitions and split on their matches carry over to both
+# modes by the same rewriting (Gen/BerLemmas.lean): the statement and the proof script of each are the text of the
+# DER lemma with `foo` -> `(fooM ber)`, `unfold foo` -> `unfold fooM`, and the lemma names -> `(nameM ber)`
+LEMMAS = [
+    ('Rpki/Proofs/SkipLemmas.lean', 'CertDer', ['readLen_suffix', 'readLenX_suffix', 'skipLoop_suffix', 'skipOne_suffix', 'skipLoop_fuel', 'skipOne_fuel']),
+    ('Rpki/Proofs/CmsDerLemmas.lean', 'CmsDer', ['signerInfo_spec']),
+    ('Rpki/Proofs/CrlDerLemmas.lean', 'SigMsgDer', ['takeMsgRevoked_capture', 'decodeTbsMsgCrl_revoked', 'msgCrlBody_revoked', 'msgCrlPart_revoked',
+        'msgSignedData_revoked', 'decodeSigMsg_revoked', 'msgSignerInfo_attrs', 'msgSignedData_attrs', 'decodeSigMsg_attrs',
+        'msgSignerInfo_spec', 'msgEncap_ct', 'msgSignerPart_spec', 'msgSignedData_spec', 'decodeSigMsg_spec']),
+]
+# second file, on top of the hand-proved `…_subM` lemmas of Proofs/BerSub.lean
+LEMMAS2 = [
+    ('Rpki/Proofs/CertDerLemmas.lean', 'CertDer', ['foldCons_inv', 'takeOid_sub', 'extension_canon', 'takeSigAlg_sub', 'takeName_sub',
+        'takeValidityCivil_sub', 'takePublicKey_sub', 'decodeTbs_canon', 'takeCert_canon', 'decodeCert_canon']),
+    ('Rpki/Proofs/CmsDerLemmas.lean', 'CmsDer', ['skipU8_sub', 'signedData_spec', 'decodeSigObj_spec']),
+]
+HAND_LEMMAS = ['readTlv_sub', 'takeOptPrim_sub', 'takeOptCons_sub', 'takePrim_sub', 'takeCons_sub', 'takeOptBool_sub']
+lemma_names = [n for _, _, ns in LEMMAS + LEMMAS2 for n in ns] + HAND_LEMMAS
+LREF = re.compile(r"(?<![\w.'])((?:Rpki\.)?(?:(?:%s)\.)?)(%s)(?![\w'])" % (nsalt, '|'.join(sorted(lemma_names, key=len, reverse=True))))
+UNFOLD = re.compile(r"unfold((?: [\w.']+)+)")
+# rewrite / simp lists: a definition there is named, not applied
+LISTS = re.compile(r"((?:simp only|simp_all|simp|rw|rewrite)\s*\[)([^\]]*)(\])")
+DEFNAME = re.compile(r"(?<![\w.'])((?:Rpki\.)?(?:(?:%s)\.)?)(%s)(?![\w'])" % (nsalt, alt))
+
+def convert_lemma(block, name):
+    head, _, rest = block.partition(name)
+    assert head.strip() == 'theorem', (name, head)
+    def unf(m):
+        return 'unfold' + ''.join(' ' + (w + 'M' if w.split('.')[-1] in names else w) for w in m.group(1).split())
+    def lst(m):
+        inner = DEFNAME.sub(lambda k: '%s%sM' % (k.group(1), k.group(2)), m.group(2))
+        inner = LREF.sub(lambda k: '(%s%sM ber)' % (k.group(1), k.group(2)), inner)
+        return m.group(1) + inner + m.group(3)
+    rest = UNFOLD.sub(lambda m: '\x00' + unf(m) + '\x01', rest)
+    rest = LISTS.sub(lambda m: '\x00' + lst(m) + '\x01', rest)
+    parts = re.split('(\x00.*?\x01)', rest, flags=re.S)
+    out = []
+    for part in parts:
+        if part.startswith('\x00'):
+            out.append(part[1:-1])
+        else:
+            part = REF.sub(lambda m: '(%s%sM ber)' % (m.group(1), m.group(2)), part)
+            part = LREF.sub(lambda m: '(%s%sM ber)' % (m.group(1), m.group(2)), part)
+            out.append(part)
+    return 'theorem %sM (ber : Bool)%s' % (name, ''.join(out))
+
+def emit_lemmas(groups, imports, target):
+    lem = ['/-', '  GENERATED by tools/gen_ber_model.py - do not edit.',
+           '  Lemmas of the DER decoder model restated and re-proved, by the same textual rewriting, for both decoding modes.', '-/'] + imports + ['']
+    lcount = 0
+    for path, ns, wanted in groups:
+        text = open(os.path.join(ROOT, path)).read()
+        found = {}
+        for b in blocks(text):
+            m = re.match(r"theorem ([\w']+)", b)
+            if m and m.group(1) in wanted: found[m.group(1)] = b.rstrip()
+        missing = [w for w in wanted if w not in found]
+        assert not missing, ('lemma not found in ' + path, missing)
+        lem.append('-- from %s' % path)
+        lem.append('namespace Rpki.%s' % ns)
+        lem.append('open Rpki.Der Rpki.CertDer Rpki.CmsDer Rpki.Chain')
+        lem.append('')
+        for w in wanted:
+            lem.append(convert_lemma(found[w], w)); lem.append(''); lcount += 1
+        lem.append('end Rpki.%s' % ns); lem.append('')
+    open(os.path.join(ROOT, target), 'w').write('\n'.join(lem))
+    print('%s: %d theorems' % (os.path.basename(target), lcount))
+
+emit_lemmas(LEMMAS, ['import Rpki.Gen.BerModel', 'import Rpki.Proofs.SkipLemmas', 'import Rpki.Proofs.CmsDerLemmas', 'import Rpki.Proofs.CrlDerLemmas'],
+            'Rpki/Gen/BerLemmas.lean')
+emit_lemmas(LEMMAS2, ['import Rpki.Proofs.BerSub', 'import Rpki.Proofs.CertDerLemmas', 'import Rpki.Proofs.CmsDerLemmas'], 'Rpki/Gen/BerLemmas2.lean')
